@@ -37,6 +37,7 @@ def rule_total(ctx):
     ctx.analysed["panic_sinks"] = st
     c02.rule_explicit_panic(ctx, taint, rule="C14/total-explicit", scope=scope)
     c02.rule_loops(ctx, taint, rule="C14/total-loops", scope=scope)
+    c02.rule_internal_iteration(ctx, taint, rule="C14/total-iter", scope=scope)
     ctx.floor("C14/total", "panic sinks examined in ELF code", st["total"], 20)
 
 
@@ -186,7 +187,35 @@ def pair_selection(b, o, want):
     return ok and seen == set(want)
 
 
+def rule_scan_all_notes(ctx, R="C14/scan-all-notes"):
+    """build_id_from_program_headers examines EVERY PT_NOTE segment: a segment that cannot be read or parsed (or holds no build-id
+    note) is skipped, it does not end the scan — the GNU build-id note is often in a later PT_NOTE than an empty/odd first one"""
+    b = ctx.body(R, MR + "::ModuleReader::build_id_from_program_headers")
+    if b is None:
+        return
+    calls = [bi for bi, t in b.calls(lambda c: (c.short or "").endswith("ModuleReader::find_build_id_note"))]
+    ctx.floor(R, "find_build_id_note call in the program-header scan", len(calls), 1)
+    loops = b.loops()
+    ex = Exits(b)
+    for bi in calls:
+        inner = [h for h, body in loops.items() if bi in body]
+        if not inner:
+            ctx.violated(R, "in-loop", b.where(bi), "the note lookup is not inside a loop over the program headers")
+            continue
+        h = min(inner, key=lambda x: len(loops[x]))
+        bad = []
+        for eb in sorted(ex.err_blocks()):
+            if witness_path(b, bi, {eb}) and must_pass(b, bi, {eb}, {h}) is not None:
+                bad.append(b.where(eb))
+        ctx.check(not bad, R, "failing-segment-is-skipped", b.where(bi),
+                  "after the lookup in one PT_NOTE segment an error return is only reachable through the loop header (a failing or empty segment is skipped)",
+                  "an unreadable/unparsable PT_NOTE segment ends the scan with an error (%s) before the remaining PT_NOTE segments are examined" % ", ".join(bad[:3]))
+        okx = [ob for ob in ex.ok_blocks() if witness_path(b, bi, {ob})]
+        ctx.check(bool(okx), R, "found-returns", b.where(bi), "a build-id note found in a segment is returned", "no success return follows the lookup")
+
+
 def run(ctx):
     rule_total(ctx)
     rule_strategy_order(ctx)
+    rule_scan_all_notes(ctx)
     rule_mem_file_siblings(ctx)
